@@ -2,6 +2,7 @@
 // Shape (I): (1) structured foreign payloads produced by refcodec with features the library never writes;
 // (2) every single-byte replacement (all 255 other values at every position) of small valid payloads.
 // The setter half (tracks holding foreign blobs, one field changed through the public API) lives in c04_setters.cpp.
+#include "c04_setters.hpp"
 #include "codec_run.hpp"
 
 namespace
@@ -311,8 +312,26 @@ int run(const Options& o)
         if (r.status != CaseResult::Ok) rep.add(Violation{"crash:" + cname + ":" + r.crash_kind, cname + " died at task level (" + r.crash_kind + ")", "M:" + cname + ":task", Json(r.crash_head)});
         else if (r.crash_kind != "not-run") ++done2;
     }
+    // ---------------- phase 3: single-field setters on tracks holding foreign blobs (all seven 2.x schemas)
+    std::vector<djinterop::engine::engine_schema> v2s(djinterop::engine::supported_v2_schemas.begin(), djinterop::engine::supported_v2_schemas.end());
+    auto res3 = run_pool(
+        v2s.size(), o.jobs, 600,
+        [&](size_t si, Emitter& em) {
+            Agg a;
+            wm::World w(v2s[si]);
+            c04s::run_setters(w, a, wm::schema_name(v2s[si]));
+            a.flush(em);
+        },
+        nullptr, deadline);
+    size_t done3 = 0;
+    for (size_t i = 0; i < res3.size(); ++i)
+    {
+        for (auto& l : res3[i].lines) total.merge_line(l, rep);
+        if (res3[i].status != CaseResult::Ok) rep.add(Violation{"setter|crash:" + res3[i].crash_kind + "@" + res3[i].crash_frame, "a setter on a track holding foreign blobs died (" + res3[i].crash_kind + ") in " + res3[i].crash_frame, "P:" + wm::schema_name(v2s[i]), Json(res3[i].crash_head)});
+        else if (res3[i].crash_kind != "not-run") ++done3;
+    }
     rep.set_counts(total.vcount);
-    const bool exhaustive = !dl1 && !dl2 && done1 == st.size() && done2 == mt.size();
+    const bool exhaustive = !dl1 && !dl2 && done1 == st.size() && done2 == mt.size() && done3 == v2s.size();
     auto& c = ev.cov();
     c["evaluations"] = total.get("evaluations");
     c["distinct_nontrivial"] = total.ndistinct("accepted");
@@ -324,7 +343,11 @@ int run(const Options& o)
         "boolean byte in {0,1,2,127,128,255}, int edges, doubles by bit-pattern class, two different grids, trailing data of {0,1,3,9,300} bytes and padding to an exact 16384-byte multiple; a well-formed "
         "foreign blob must be accepted. (2) mutation: every single-byte replacement with all 255 other values at every position of small valid payloads. For every blob the decoder accepts, "
         "unframe(to_blob(from_blob(x))) must equal the original payload byte for byte, except that the main-cue-adjusted byte may go from non-zero to 1. "
-        "Distinct non-trivial = distinct payloads the decoder accepted (so that the byte comparison was actually made).";
+        "(3) setters: on each of the seven 2.x schemas a track's five blob columns are overwritten by raw SQL with three sets of foreign blobs (eight slots with odd flag bytes and trailing data; "
+        "ten cues and ten loops; five cues and three loops without trailing data; beat data with is_set 2/0, two different grids and non-zero unknown fields) and every public single-field setter "
+        "(25 fields, set_hot_cue_at / set_loop_at at 0, 3, 7) is applied: every other blob column must stay byte-identical and in the touched blob only the fields that belong to the setter may "
+        "change (field by field through refcodec's layout map). "
+        "Distinct non-trivial = distinct payloads the decoder accepted (so that the byte comparison was actually made) plus setter cases.";
     c["exhaustive"] = exhaustive;
     Json b = Json::object();
     b["structured_max_field_deviations"] = k;
@@ -332,6 +355,7 @@ int run(const Options& o)
     b["structured_tasks_completed"] = (long long)done1;
     b["mutated_byte_positions"] = (long long)mutated_bytes;
     b["mutation_tasks_completed"] = (long long)done2;
+    b["setter_schemas_completed"] = (long long)done3;
     b["deadline_hit"] = dl1 || dl2;
     c["bounds"] = b;
     c["counters"] = total.counters_json();
